@@ -133,6 +133,9 @@ pub struct HeadSpec {
     pub max_headers: Option<usize>,
     /// the head has max_headers + 1 fields: send() must fail
     pub reject: bool,
+    /// the request is a HEAD request (the response then has no body whatever its header fields say)
+    #[serde(default)]
+    pub head_method: bool,
 }
 
 pub struct Built {
@@ -230,8 +233,8 @@ pub enum Obs {
 
 type Req = attohttpc::PreparedRequest<attohttpc::body::Empty>;
 
-fn new_request(max_headers: Option<usize>) -> Req {
-    let mut rb = attohttpc::get("http://h.test/").follow_redirects(false);
+fn new_request(max_headers: Option<usize>, head_method: bool) -> Req {
+    let mut rb = if head_method { attohttpc::head("http://h.test/") } else { attohttpc::get("http://h.test/") }.follow_redirects(false);
     if let Some(n) = max_headers {
         rb = rb.max_headers(n);
     }
@@ -649,6 +652,7 @@ fn spec_lists(fields: Vec<FieldSpec>) -> HeadSpec {
         body: b"xyz".to_vec(),
         max_headers: None,
         reject: false,
+        head_method: false,
     }
 }
 
@@ -685,6 +689,7 @@ pub fn space() -> Vec<HeadSpec> {
                     body: body_for(code),
                     max_headers: None,
                     reject: false,
+                    head_method: false,
                 });
             }
         }
@@ -712,6 +717,7 @@ pub fn space() -> Vec<HeadSpec> {
                     body: b"xyz".to_vec(),
                     max_headers: Some(m),
                     reject: n > m,
+                    head_method: false,
                 });
             }
         }
@@ -761,6 +767,22 @@ pub fn space() -> Vec<HeadSpec> {
         } else {
             b"xyz".to_vec()
         };
+        // bodiless response kinds: Transfer-Encoding must be hidden there too (lists of <= 2 fields)
+        if te == 1 && fields.len() <= 2 {
+            for (code, head_method) in [(204u16, false), (304, false), (101, false), (200, true), (404, true)] {
+                v.push(HeadSpec {
+                    group: "te".into(),
+                    version: "HTTP/1.1".into(),
+                    code,
+                    reason: Reason::Text(b"X".to_vec()),
+                    fields: fields.clone(),
+                    body: Vec::new(),
+                    max_headers: None,
+                    reject: false,
+                    head_method,
+                });
+            }
+        }
         v.push(HeadSpec {
             group: "te".into(),
             version: "HTTP/1.1".into(),
@@ -770,6 +792,7 @@ pub fn space() -> Vec<HeadSpec> {
             body,
             max_headers: None,
             reject: false,
+            head_method: false,
         });
     }
     // (B) all lists of length 3
@@ -790,6 +813,7 @@ pub fn space() -> Vec<HeadSpec> {
         body: b"xyz".to_vec(),
         max_headers: None,
         reject: false,
+        head_method: false,
     };
     for lf in [false, true] {
         v.push(size_spec(vec![
@@ -857,13 +881,13 @@ fn run_head(spec: &HeadSpec, tier: Tier) -> HeadResult {
     let b = build(spec);
     let plan = plan_for(spec, &b, tier);
     let mut r = HeadResult::default();
-    let mut req = new_request(spec.max_headers);
+    let mut req = new_request(spec.max_headers, spec.head_method);
     let mut reference: Option<(Obs, Result<String, (String, String)>)> = None;
     let exposes = !b.exp_fields.is_empty();
     for_each_policy(&plan, b.wire.len(), |idx, policy| {
         let obs = observe(&mut req, &b.wire, policy.clone());
         if matches!(obs, Obs::Panic(_)) {
-            req = new_request(spec.max_headers);
+            req = new_request(spec.max_headers, spec.head_method);
         }
         r.evaluations += 1;
         let splits_head = policy.uniform.map_or(false, |u| u < b.head_len) || policy.cuts.iter().any(|&c| c < b.head_len);
@@ -1050,9 +1074,9 @@ pub fn replay(v: &Value) -> i32 {
     println!("head ({} bytes): \"{}\"", b.head_len, esc(&b.wire[..b.head_len]));
     println!("body: \"{}\"  max_headers: {:?}  policy: {:?}", esc(&b.wire[b.head_len..]), spec.max_headers, policy);
     let run = || {
-        let mut req = new_request(spec.max_headers);
+        let mut req = new_request(spec.max_headers, spec.head_method);
         let whole = observe(&mut req, &b.wire, Policy::default());
-        let mut req = new_request(spec.max_headers);
+        let mut req = new_request(spec.max_headers, spec.head_method);
         let cut = observe(&mut req, &b.wire, policy.clone());
         (whole, cut)
     };
